@@ -245,6 +245,15 @@ def run_sequence(ctx, path: Path, ops, h_params, check_oracle=True):
                     if got != vv:
                         viol = ("C02:get-differs-from-put", f"after `{op_short(op)}` handle {i} get({hx(kk)[:20]}) != value put")
                         break
+                if not viol and real.n % 4 == 0:
+                    try:
+                        its = dict(f.items())
+                        vs = sorted(f.values())
+                    except Exception as e:
+                        its, vs = f"{type(e).__name__}", None
+                    if its != ref or vs != sorted(ref.values()):
+                        viol = ("C02:enumeration-differs-from-successful-puts",
+                                f"after `{op_short(op)}` handle {i}: items()/values() do not give the pairs put successfully ({str(its)[:60]})")
     finally:
         real.close_all()
     data = path.read_bytes() if path.exists() else None
